@@ -91,6 +91,8 @@ pub struct Scn {
     /// the peer never grants more unidirectional streams than `uni_credit` (only with uni_credit == 3: control, encoder and
     /// decoder stream can be opened, the optional grease stream waits for ever)
     pub uni_frozen: bool,
+    /// the code the peer uses whenever it resets one of its streams in this scenario
+    pub reset_code: u64,
     pub send_credit: u64,
     pub streams: Vec<UniStream>,
     pub style: Style,
@@ -309,7 +311,7 @@ fn type_bytes(ty: u64, form: usize) -> Vec<u8> {
     rv::encode_len(ty, f).unwrap()
 }
 
-fn stream_ops(st: &UniStream, key: usize, sig: (bool, bool), server: bool, first_control: &mut bool) -> Vec<PeerOp> {
+fn stream_ops(st: &UniStream, key: usize, sig: (bool, bool), server: bool, first_control: &mut bool, reset_code: u64) -> Vec<PeerOp> {
     let mut ops = vec![PeerOp::OpenUni(key)];
     match &st.kind {
         Kind::Control { frames, end } => {
@@ -327,7 +329,7 @@ fn stream_ops(st: &UniStream, key: usize, sig: (bool, bool), server: bool, first
             match end {
                 End::Open => {}
                 End::Fin => ops.push(PeerOp::Fin(key)),
-                End::Reset => ops.push(PeerOp::Reset(key, 0x10c)),
+                End::Reset => ops.push(PeerOp::Reset(key, reset_code)),
             }
         }
         Kind::Encoder => ops.push(PeerOp::Write(key, type_bytes(0x02, st.type_form))),
@@ -376,7 +378,7 @@ fn stream_ops(st: &UniStream, key: usize, sig: (bool, bool), server: bool, first
                 ops.push(PeerOp::Write(key, full[..cut].to_vec()));
             }
             if *reset {
-                ops.push(PeerOp::Reset(key, 0x77));
+                ops.push(PeerOp::Reset(key, reset_code));
             } else {
                 ops.push(PeerOp::Fin(key));
             }
@@ -387,7 +389,7 @@ fn stream_ops(st: &UniStream, key: usize, sig: (bool, bool), server: bool, first
         match st.end_after {
             End::Open => {}
             End::Fin => ops.push(PeerOp::Fin(key)),
-            End::Reset => ops.push(PeerOp::Reset(key, 0x10c)),
+            End::Reset => ops.push(PeerOp::Reset(key, reset_code)),
         }
     }
     ops
@@ -472,7 +474,7 @@ async fn client_app(net: Net, grease: bool, o: Shared<Obs>, sh: Shared<Option<Ar
 fn scn_json(s: &Scn) -> Value {
     json!({
         "role": if s.server { "server" } else { "client" }, "grease": s.grease, "webtransport": s.webtransport,
-        "uni_credit": if s.uni_credit == UNLIMITED { -1 } else { s.uni_credit as i64 }, "uni_frozen": s.uni_frozen, "send_credit": if s.send_credit == UNLIMITED { -1 } else { s.send_credit as i64 },
+        "uni_credit": if s.uni_credit == UNLIMITED { -1 } else { s.uni_credit as i64 }, "uni_frozen": s.uni_frozen, "reset_code": s.reset_code.to_string(), "send_credit": if s.send_credit == UNLIMITED { -1 } else { s.send_credit as i64 },
         "style": format!("{:?}", s.style), "streams": s.streams.iter().map(|st| format!("{:?} form={} end={:?}", st.kind, st.type_form, st.end_after)).collect::<Vec<_>>(),
     })
 }
@@ -594,7 +596,7 @@ pub fn run_scn(s: &Scn, merge: &mut Tape, sched: &mut Tape, ctx: &mut Ctx) -> Ve
     }
     // per stream op lists, merged in an order chosen by the tape (per-stream order preserved)
     let mut first_control = true;
-    let mut lists: Vec<std::collections::VecDeque<PeerOp>> = s.streams.iter().enumerate().map(|(k, st)| stream_ops(st, k, s.sig, s.server, &mut first_control).into()).collect();
+    let mut lists: Vec<std::collections::VecDeque<PeerOp>> = s.streams.iter().enumerate().map(|(k, st)| stream_ops(st, k, s.sig, s.server, &mut first_control, s.reset_code).into()).collect();
     let mut ops = Vec::new();
     loop {
         let live: Vec<usize> = (0..lists.len()).filter(|i| !lists[*i].is_empty()).collect();
@@ -781,7 +783,7 @@ fn gen(t: &mut Tape, bounded: bool) -> Scn {
     }
     // keep scenarios to at most two violating elements
     loop {
-        let m = model(&Scn { server, grease: false, webtransport: false, uni_credit: UNLIMITED, uni_frozen: false, send_credit: UNLIMITED, streams: streams.clone(), style: Style::Eager, sig: (false, false) });
+        let m = model(&Scn { server, grease: false, webtransport: false, uni_credit: UNLIMITED, uni_frozen: false, reset_code: 0x10c, send_credit: UNLIMITED, streams: streams.clone(), style: Style::Eager, sig: (false, false) });
         if m.violations.len() <= 2 || streams.len() <= 1 {
             break;
         }
@@ -795,6 +797,7 @@ fn gen(t: &mut Tape, bounded: bool) -> Scn {
             webtransport: false,
             uni_credit: [UNLIMITED, 3, 0, 3][credit_mode],
             uni_frozen: credit_mode == 3,
+            reset_code: [0x10cu64, 0x100][credit_mode % 2],
             send_credit: [UNLIMITED, 0, 5, UNLIMITED][credit_mode],
             streams,
             style: if t.bool() { Style::Tiny } else { Style::Eager },
@@ -811,6 +814,7 @@ fn gen(t: &mut Tape, bounded: bool) -> Scn {
             _ => t.pick(3) as u64,
         },
         uni_frozen: credit_mode == 3,
+        reset_code: *t.choose(&[0x10cu64, 0x100, 0, 0x104, 0x101, 0x77, (1 << 62) - 1]),
         send_credit: match credit_mode {
             0 => UNLIMITED,
             1 => 0,
